@@ -31,6 +31,11 @@ func VerifC04Decode(n, sep int) {
 	if sep >= 0 {
 		verifAssume(s[sep] == '1')
 	}
+	if verifVariant() == 1 {
+		// native replay, second attempt: the symbolic run leaves the checksum polynomial
+		// uninterpreted, so recompute the six checksum characters with the reference
+		s = verifFixChecksum(s, sep)
+	}
 	// reference first (computed once, before the implementation forks into its error paths)
 	shapeOK := n <= 90 && sep >= 1 && sep+7 <= n
 	if r := (n - sep - 7) % 8; !shapeOK || r == 1 || r == 3 || r == 6 {
@@ -177,4 +182,40 @@ func VerifC04PolymodLemmas() {
 
 	// checksum creation/verification use the loop with these constants
 	verifAssert("gen.table", len(gen) == 5 && gen[0] == 0x3b6a57b2 && gen[1] == 0x26508e6d && gen[2] == 0x1ea119fa && gen[3] == 0x3d4233dd && gen[4] == 0x2a1462b3)
+}
+
+// verifFixChecksum (replays only): replace the last six characters by the BIP-173 checksum of
+// the rest, when the data part is well formed.
+func verifFixChecksum(s string, sep int) string {
+	n := len(s)
+	if sep < 1 || sep+7 > n {
+		return s
+	}
+	upper := false
+	var syms []byte
+	for i := sep + 1; i < n-6; i++ {
+		if s[i] >= 'A' && s[i] <= 'Z' {
+			upper = true
+		}
+		v := verifRev[verifLowerByte(s[i])]
+		if v == 0xFF {
+			return s
+		}
+		syms = append(syms, v)
+	}
+	for i := 0; i < sep; i++ {
+		if s[i] >= 'A' && s[i] <= 'Z' {
+			upper = true
+		}
+	}
+	pm := verifRefPolymod(append(verifRefValues([]byte(s[:sep]), syms), 0, 0, 0, 0, 0, 0)) ^ 1
+	out := []byte(s)
+	for i := 0; i < 6; i++ {
+		c := verifCharset[(pm>>uint(5*(5-i)))&31]
+		if upper {
+			c = verifUpperByte(c)
+		}
+		out[n-6+i] = c
+	}
+	return string(out)
 }
